@@ -31,7 +31,7 @@ class PoolGen:
         self.linked = {}
         self.w = dict(sleep=10, update=30, peer=12, reconnect=5, close=3, reopen=3, addnode=4, withdraw=3,
                       deposit=2, forged=8, mode=3, credit=2, stale=2, account=1, legacy=2, client=1, host=1, stats=1,
-                      settlemode=1, burst=0, sburst=0, wburst=0, status=2)
+                      settlemode=1, burst=0, sburst=0, wburst=0, status=2, forgedrun=1)
         if weights:
             self.w.update(weights)
         self.cfg = cfg or {}
@@ -220,6 +220,42 @@ class PoolGen:
             else:
                 self.connect(ident)
 
+    def forgedrun(self):
+        """a run of 1..13 refused requests naming ONE identity (forged in different ways on different endpoints, stale
+        replays among them), then the owner's own request: however many were refused, nothing of them may remain"""
+        r = self.r
+        wallet = r.random() < 0.25
+        ident = r.choice(self.accts) if wallet else r.choice(NODES)
+        for _ in range(r.choice([1, 2, 3, 5, 5, 8, 13])):
+            alter = r.choice(BAD_ALTERS)
+            if wallet:
+                if r.random() < 0.5:
+                    self.addnode(ident, r.choice(NODES), alter=alter)
+                else:
+                    self.withdraw(ident, alter=alter if alter != "param" else "otherkey")
+            else:
+                kind = r.choice(["connect", "update", "update", "peer", "legacyhost", "legacyclient"])
+                k = self.conn_for(ident)
+                if kind == "connect":
+                    self.connect(ident, alter=alter)
+                elif kind == "update":
+                    self.update(ident, alter=alter)
+                elif kind == "peer":
+                    self.peer(ident, alter=alter)
+                elif kind == "legacyhost":
+                    self.emit(self.signed({"op": "Host", "conn": k, "kind": "geth", "payout": "", "uri": ""}, ident, alter))
+                else:
+                    self.emit(self.signed({"op": "Client", "conn": k, "kind": "geth", "num": 1}, ident, alter))
+            # the refused request does not use up a nonce of the owner
+            self.sec_ctr[(ident, self.now)] = self.sec_ctr.get((ident, self.now), 1) - 1
+        if wallet:
+            self.addnode(ident, r.choice(NODES))
+        elif ident in self.connected:
+            self.update(ident)
+            self.peer(ident)
+        else:
+            self.connect(ident)
+
     def stale(self):
         """a correctly signed request with a replayed / old nonce"""
         r = self.r
@@ -345,6 +381,8 @@ class PoolGen:
             self.forged()
         elif kind == "stale":
             self.stale()
+        elif kind == "forgedrun":
+            self.forgedrun()
         elif kind == "mode":
             if self.open:
                 self.emit({"op": "Mode", "conn": r.choice(sorted(self.open)),
